@@ -11,10 +11,17 @@ use serde_json::{Value, json};
 pub fn script_worker() -> Handler {
     let mut ip = Inproc::new();
     let cfg = ShellCfg::default();
+    let mut last_dirkey: Option<String> = None;
     Box::new(move |case: &[u8]| {
         let v: Value = serde_json::from_slice(case).expect("script case json");
-        let dir = ip.fresh_dir();
-        if let Some(files) = v["files"].as_object() {
+        // "dirkey": cases that only read their directory may share it (no wipe between them)
+        let reuse = match (v["dirkey"].as_str(), &last_dirkey) {
+            (Some(k), Some(l)) if k == l => true,
+            _ => false,
+        };
+        last_dirkey = v["dirkey"].as_str().map(String::from);
+        let dir = if reuse { ip.root.join("w") } else { ip.fresh_dir() };
+        if let Some(files) = v["files"].as_object().filter(|_| !reuse) {
             for (name, content) in files {
                 let p = dir.join(name);
                 if let Some(parent) = p.parent() {
